@@ -25,7 +25,8 @@ under the requirement-indexed specification; Stage D logic values and assertions
 work-list loop and final assembly.  `tools/props/C01.json` (`level_note`) says which stages are proved.
 -/
 import Rooc.Proofs.LinGadgets
-import Rooc.Proofs.LinAssemble
+import Rooc.Proofs.LinC10
+import Rooc.Proofs.LinExamples
 namespace Rooc.Props.C01
 open Rooc Rooc.Lin
 open Rooc.Lin.Gadget (B01 DomMax DomMin)
@@ -283,6 +284,17 @@ theorem prune_min_iff (ι : K → B) (hι : ∀ a b, ι a ≤ ι b ↔ a ≤ b) 
 end prune
 
 
+/-! non-vacuity of the Stage-A hypotheses (one instance per family) -/
+
+example : ∃ l u e : K, l ≤ e ∧ e ≤ u ∧ l < 0 ∧ 0 < u := ⟨-1, 1, 0, by norm_num, by norm_num, by norm_num, by norm_num⟩
+example : ∃ (U z : K) (ps : List (K × K)), (∀ p ∈ ps, p.2 ≤ p.1 ∧ p.1 ≤ U) ∧ z ∈ ps.map (·.1) ∧
+    ∀ y ∈ ps.map (·.1), y ≤ z :=
+  ⟨2, 1, [(1, 0), (0, 0)], by simp, by simp, by simp⟩
+example : ∃ (z : K) (as : List K), B01 z ∧ (∀ a ∈ as, B01 a) ∧ (z = 1 ↔ ∀ a ∈ as, a = 1) :=
+  ⟨1, [1, 1], Or.inr rfl, by simp [B01], by simp⟩
+example : ∃ (n : ℕ) (L U : ℕ → K) (v : ℕ → K), 0 < n ∧ ∀ i, i < n → L i ≤ id (v i) ∧ id (v i) ≤ U i :=
+  ⟨1, fun _ => 0, fun _ => 1, fun _ => 0, by norm_num, fun _ _ => by simp⟩
+
 /-! ## Stage B — the affine fragment, and C01 end to end on purely affine models
 
 Vocabulary (definitions in `Rooc/Proofs/Lin*.lean`, namespace `Rooc.LinP`):
@@ -293,8 +305,8 @@ Vocabulary (definitions in `Rooc/Proofs/Lin*.lean`, namespace `Rooc.LinP`):
 * `AffineModel m d` = objective and every constraint are `arithOnly` comparisons (no bare assertion) over
   variables declared in `d` with a usage mark; `DefinedC c` = both sides of `c` evaluate at every assignment;
   `DomRel m d` = `d` has distinct names, only shrinks `m.domain`, and contains every source-feasible point.
-* `FlattenSound K`, `SimplifySoundArith K` = the two C10 facts about `Exp.flattenF` / `Exp.simplify` that
-  `emit_constraint` relies on — HYPOTHESES here (named, not axioms); C10's theorems discharge them. -/
+* The two C10 facts about `Exp.flattenF` / `Exp.simplify` that `emit_constraint` relies on (`FlattenSound K`,
+  `SimplifySoundArith K`) are taken from C10's lemmas in `Rooc/Proofs/LinC10.lean`. -/
 
 section StageB
 variable [FloorRing K]
@@ -343,35 +355,40 @@ theorem linExp_affine (e : Exp (Ext K)) (he : arithOnly e = true) (req : Req) (s
 
 /-- `emit_constraint` on an affine comparison: exactly one row is appended, nothing else changes, and the
 row holds iff the comparison does. -/
-theorem emitConstraint_affine (hfl : FlattenSound K) (hsi : SimplifySoundArith K) {S : String → Prop}
+theorem emitConstraint_affine {S : String → Prop}
     {lhs rhs : Exp (Ext K)} {cmp : Cmp} {name : String} {s : St (Ext K)} {r : Unit × St (Ext K)}
     (hl : AG S lhs) (hr : AG S rhs) (h : emitConstraint lhs cmp rhs name s = .ok r) :
     ∃ row : MidRow (Ext K), r = ((), { s with rows := s.rows ++ [row] }) ∧ row.name = name ∧ row.cmp = cmp ∧
       (∀ x ∈ row.lhs.map (·.1), S x) ∧
       ∀ (ρ : String → K) (a b : K), eval ρ lhs = some a → eval ρ rhs = some b →
         RowOK row ∧ (rowTrue ρ row ↔ cmpK cmp a b = true) :=
-  emit_arith hfl hsi hl hr h
+  emit_arith flattenSound simplifySoundArith hl hr h
 
 /-- **C01 on purely affine models** (through `flatten`, `simplify`, comparison normalisation of Boolean
 variables against constants, the work-list loop, name de-duplication, the used-variable filter and
 coefficient extraction): the linear model has no auxiliary variable and exactly the source's feasible set. -/
-theorem c01_affine (hfl : FlattenSound K) (hsi : SimplifySoundArith K)
-    {m : Model (Ext K)} {b : BoundsMap (Ext K)} {d : List (DomVar (Ext K))} {lm : LinModel (Ext K)}
+theorem c01_affine {m : Model (Ext K)} {b : BoundsMap (Ext K)} {d : List (DomVar (Ext K))} {lm : LinModel (Ext K)}
     (h : linearizeWith m b d = .ok lm)
     (haff : AffineModel m d) (hdef : ∀ c ∈ m.constraints, DefinedC c) (hdom : DomRel m d) :
     ∀ ρ : String → K, srcFeasible m ρ = true ↔ linFeasible lm ρ = true :=
-  fun ρ => affine_feasible_iff hfl hsi haff hdef hdom h ρ
+  fun ρ => affine_feasible_iff flattenSound simplifySoundArith haff hdef hdom h ρ
+
+/-- non-vacuity of `c01_affine`: the model `min x s.t. c: x ≤ y` (x, y free reals) compiles (for every ordered
+field at once) and satisfies every hypothesis. -/
+example : ∃ (m : Model (Ext K)) (b : BoundsMap (Ext K)) (d : List (DomVar (Ext K))) (lm : LinModel (Ext K)),
+    linearizeWith m b d = .ok lm ∧ AffineModel m d ∧ (∀ c ∈ m.constraints, DefinedC c) ∧ DomRel m d := by
+  obtain ⟨lm, h⟩ := exAffine_ok (K := K)
+  exact ⟨exAffine, [], exAffine.domain, lm, h, exAffine_hyps.1, exAffine_hyps.2.1, exAffine_hyps.2.2⟩
 
 /-- the same in the shape of the full target (the extension is the assignment itself). -/
-theorem c01_affine' (hfl : FlattenSound K) (hsi : SimplifySoundArith K)
-    {m : Model (Ext K)} {b : BoundsMap (Ext K)} {d : List (DomVar (Ext K))} {lm : LinModel (Ext K)}
+theorem c01_affine' {m : Model (Ext K)} {b : BoundsMap (Ext K)} {d : List (DomVar (Ext K))} {lm : LinModel (Ext K)}
     (h : linearizeWith m b d = .ok lm)
     (haff : AffineModel m d) (hdef : ∀ c ∈ m.constraints, DefinedC c) (hdom : DomRel m d) (ρ : String → K) :
     srcFeasible m ρ = true ↔ ∃ ρ' : String → K, (∀ v, inScope d v → ρ' v = ρ v) ∧ linFeasible lm ρ' = true := by
   constructor
-  · intro hs; exact ⟨ρ, fun _ _ => rfl, (c01_affine hfl hsi h haff hdef hdom ρ).mp hs⟩
+  · intro hs; exact ⟨ρ, fun _ _ => rfl, (c01_affine h haff hdef hdom ρ).mp hs⟩
   · rintro ⟨ρ', hag, hl⟩
-    have hs' := (c01_affine hfl hsi h haff hdef hdom ρ').mpr hl
+    have hs' := (c01_affine h haff hdef hdom ρ').mpr hl
     -- source feasibility only reads declared, used variables
     refine (srcFeasible_congr (d := d) ?_ hdom.names hag).mp hs'
     intro c hc x hx
